@@ -164,6 +164,9 @@ def worker(case, led):
                 ov = a.conj().dot(b)
                 led.check(abs(ov - np.vdot(da, db)) <= TOL * max(1, abs(ov)), "post:MatrixProduct.dot:overlap", "MatrixProduct.dot",
                           f"<a|b>={ov} vs {np.vdot(da, db)}", key + ("dot",), fields, rep, nontriv)
+                ob = np.asarray(a.conj().dot_ob(b)).reshape(-1)
+                led.check(ob.size == 1 and abs(ob[0] - np.vdot(da, db)) <= TOL * max(1, abs(ov)), "post:MatrixProduct.dot_ob:overlap", "MatrixProduct.dot_ob",
+                          f"dot_ob {ob[:2]} vs {np.vdot(da, db)}", key + ("dot_ob",), fields, rep, nontriv)
                 ang = a.angle(b)
                 led.check(abs(ang - abs(np.vdot(da, db))) <= TOL * max(1, abs(ang)), "post:MatrixProduct.angle:modulus_of_the_overlap", "MatrixProduct.angle",
                           f"|<a|b>|={ang} vs {abs(np.vdot(da, db))}", key + ("angle",), fields, rep, nontriv)
@@ -244,6 +247,17 @@ def worker(case, led):
             for how, r2 in (lossless_variants(Sm) if sdense(Sm) is not None else []):
                 led.check(close(S.dense(r2), Hd + Gd), "post:MatrixProduct.add:operator_sum_after_canonicalise", "MatrixProduct.add",
                           f"H+G wrong after {how}", key + ("H+G", how), {}, dict(rep, then=how))
+            # inner products of operators: <H, G> = Tr(H^dagger G), through `dot` and through the open-boundary variant `dot_ob` (1x1x1x1 for closed chains)
+            try:
+                want_hg = np.vdot(Hd, Gd)
+                got_dot = H.conj().dot(G)
+                got_ob = np.asarray(H.conj().dot_ob(G)).reshape(-1)
+                led.check(abs(got_dot - want_hg) <= TOL * max(1.0, abs(want_hg)), "post:MatrixProduct.dot:operator_overlap", "MatrixProduct.dot", f"<H,G> = {got_dot} vs Tr(H^+ G) = {want_hg}",
+                          key + ("HG-dot",), {}, rep)
+                led.check(got_ob.size == 1 and abs(got_ob[0] - want_hg) <= TOL * max(1.0, abs(want_hg)), "post:MatrixProduct.dot_ob:operator_overlap", "MatrixProduct.dot_ob",
+                          f"dot_ob gives {got_ob[:2]} vs Tr(H^+ G) = {want_hg}", key + ("HG-dot_ob",), {}, rep)
+            except Exception as e:
+                led.check(False, "post:MatrixProduct.dot_ob:total", "MatrixProduct.dot_ob", f"raised {type(e).__name__}: {e}", key + ("HG-dot_ob",), {}, rep)
             Gt = G.conj_trans()
             led.check(close(S.dense(Gt), Gd.conj().T), "post:Mpo.conj_trans:dense_adjoint", "Mpo.conj_trans", "adjoint wrong", key + ("G+",), {}, rep)
             led.check(not S.qnv_violations(Gt), "post:Mpo.conj_trans:qn_valid", "Mpo.conj_trans", "adjoint labels invalid", key + ("G+-qnv",), {}, rep)
